@@ -8,6 +8,7 @@
    Statements only; proofs in Proofs/JoinDraw.v, Proofs/JoinRange.v. *)
 From EG Require Import Base.Prelude Model.Geometry Model.Style Model.Line Model.Thickline Model.Join Model.JoinTri.
 From EG Require Import Proofs.Join Proofs.JoinTri Proofs.JoinRange Proofs.JoinDraw Proofs.JoinTriDraw.
+From EG Require Proofs.Tristyled Proofs.Tribridge Proofs.JoinTriBridge Proofs.JoinTriFill.
 Set Default Timeout 60.
 
 (* for every vertex list and width: hypothesis = the corners of the thick segments lie within +-2^29 (one-row
@@ -48,6 +49,33 @@ Theorem C01_join_triangle_pixels_draw_range : forall V t w al fill rs, range_ok 
   jt_rows t w al (match fill with Some _ => true | None => false end) = Some rs -> jt_fused rs = true ->
   exists px dr, jt_pixels t w al fill = Some px /\ jt_draw t w al fill = Some dr /\ flat_map rect_writes dr = px.
 Proof. exact jt_pixels_draw_range. Qed.
+
+(* jt_fused is a THEOREM for the triangles whose rows come from Triangle::scanline_intersection alone: stroke width 0 (fill
+   only, every alignment) and the collapsed Inside stroke.  Every row between the top and the bottom vertex then has a pixel
+   (or no row has one), so the un-fused iterator cannot make pixels() and draw() differ.  For the remaining strokes jt_fused
+   stays a computable hypothesis: never false on 151 848 triangles of an exhaustive 6 x 6 grid (widths 1..3, all alignments,
+   fill on and off), on 120 000 random ones, nor on any generated case; for stroke width 1 with Center alignment it follows from
+   C19_join_tri_outline_w1 (every row has a pixel). *)
+Theorem C01_join_triangle_fused_fill_like : forall t w al hf rs, tri_big t ->
+  (w = 0 \/ exists c, jt_is_collapsed (jt_sorted_clockwise t) w (so_of_alignment al) = Some c /\
+                      (0 <? w) && c && so_eqb (so_of_alignment al) SORight = true) ->
+  jt_rows t w al hf = Some rs -> jt_fused rs = true.
+Proof. exact Proofs.JoinTriFill.fill_like_fused. Qed.
+
+(* ... hence C01 (b) for them without that hypothesis *)
+Theorem C01_join_triangle_pixels_draw_fill_like : forall t w al fill segs rs, tri_big t ->
+  tri_segs (jt_sorted_clockwise t) w (so_of_alignment al) = Some segs -> Forall seg_ok segs ->
+  (w = 0 \/ exists c, jt_is_collapsed (jt_sorted_clockwise t) w (so_of_alignment al) = Some c /\
+                      (0 <? w) && c && so_eqb (so_of_alignment al) SORight = true) ->
+  jt_rows t w al (match fill with Some _ => true | None => false end) = Some rs ->
+  exists px dr, jt_pixels t w al fill = Some px /\ jt_draw t w al fill = Some dr /\ flat_map rect_writes dr = px.
+Proof. exact Proofs.JoinTriFill.jt_pixels_draw_fill_like. Qed.
+
+(* the computable hypothesis of the tri builder's C01_bridge_tri_stroked_pixels_draw_partial (the same consumers, modelled
+   in Model/Tristyled.v) is this file's jt_fused: the two statements have the same reach *)
+Theorem C01_join_fused_is_first_rows_ok : forall rs,
+  jt_fused rs = true <-> Proofs.Tristyled.first_rows_ok (Proofs.Tribridge.conv_rows rs).
+Proof. exact Proofs.JoinTriBridge.jt_fused_first_rows_ok. Qed.
 
 Example C01_join_nonvacuous :
   let pts := [P 0 0; P 3 0; P 0 6] in
